@@ -259,25 +259,27 @@ Definition lvc_ext (l : lvc) (p : list Z) : lvc * list lvc_event * bool :=
 
 (* HandleRFBServerMessage, case rfbServerCutText, on one complete message [m] (type byte
    included); false = the client gives up the connection *)
-Definition lvc_recv (l : lvc) (m : list Z) : lvc * list lvc_event * bool :=
+Definition lvc_recv (xl : bool) (l : lvc) (m : list Z) : lvc * list lvc_event * bool :=
   match be32_at m 4 with
   | None => (l, [], false)
   | Some len0 =>
       let neg := two31 <=? len0 in                        (* int32_t ilen < 0 *)
       let len := if neg then neg32 len0 else len0 in
-      if c18_lvc_cut_limit <? len then (l, [], false) else
+      (* [xl]: with the proposed repair notes/fix_C18_3.diff an extended message may exceed the limit by the slack *)
+      let lim := if neg && xl then c18_lvc_cut_limit + c06_ext_slack else c18_lvc_cut_limit in
+      if lim <? len then (l, [], false) else
       let body := skipn 8 m in
       if negb (Z.of_nat (length body) =? len) then (l, [], false) else     (* not one whole message *)
       if neg && l_utf8 l then lvc_ext l body
       else (l, [GotCut body], true)
   end.
 
-Fixpoint lvc_recv_all (l : lvc) (ms : list (list Z)) : lvc * list lvc_event * bool :=
+Fixpoint lvc_recv_all (xl : bool) (l : lvc) (ms : list (list Z)) : lvc * list lvc_event * bool :=
   match ms with
   | [] => (l, [], true)
   | m :: r =>
-      let '(l1, e1, ok) := lvc_recv l m in
-      if ok then let '(l2, e2, ok2) := lvc_recv_all l1 r in (l2, e1 ++ e2, ok2)
+      let '(l1, e1, ok) := lvc_recv xl l m in
+      if ok then let '(l2, e2, ok2) := lvc_recv_all xl l1 r in (l2, e1 ++ e2, ok2)
       else (l1, e1, false)
   end.
 
@@ -348,7 +350,7 @@ Definition wstep (w : world) (o : wop) : world * list wevent :=
       match find_lvc (w_lvcs w) id, find_client (s_clients (w_srv w)) id with
       | Some (l, n), Some c =>
           let outs := k_out (c_clip c) in
-          let '(l', evs, ok) := lvc_recv_all l (map enc_out (skipn n outs)) in
+          let '(l', evs, ok) := lvc_recv_all (fix_extlimit (s_cfg (w_srv w))) l (map enc_out (skipn n outs)) in
           (* a client that gives up closes its socket: the server will see end-of-file *)
           let s' := if ok then w_srv w
                     else fst (step (ext_cut_real (fix_short (s_cfg (w_srv w)))) (w_srv w) (OEof id)) in
